@@ -1,9 +1,9 @@
 package main
 
 import (
-	"go/types"
 	"fmt"
 	"go/token"
+	"go/types"
 	"strings"
 
 	"golang.org/x/tools/go/ssa"
@@ -126,7 +126,9 @@ func c11(r *Run) {
 			_, isC := i.(*ssa.Call)
 			return isC && px.Must(i, lbl("ctl", ro.evDetach))
 		}
-		queues := func(i ssa.Instruction) bool { return isStoreToField(i, "defaultPoll", "hups") || isStoreToField(i, "pollArgs", "hups") }
+		queues := func(i ssa.Instruction) bool {
+			return isStoreToField(i, "defaultPoll", "hups") || isStoreToField(i, "pollArgs", "hups")
+		}
 		for _, d := range dones {
 			r.precedes("C11.R1:detach-before-release", "the descriptor is deregistered (PollDetach) before the token is released: no further event can be fetched for a slot whose hang-up is queued", appendHup, d, detaches, nil, "Control(PollDetach) dominates done()")
 			r.precedes("C11.R1:queue-before-release", "the OnHup callback is copied out of the slot before the token is released (the slot may be reset right after)", appendHup, d, queues, nil, "hups = append(hups, OnHup) dominates done()")
@@ -196,6 +198,12 @@ func c11(r *Run) {
 	hupSites := findIns(disp, func(i ssa.Instruction) bool { return isCall(i, appendHup) })
 	if len(hupSites) < 3 {
 		r.absentf(" config=%s: %d hang-up sites in the dispatch function", w.Cfg.Name, len(hupSites))
+	}
+	// a hang-up that was queued (descriptor already deregistered) is always delivered: every way out of the dispatch
+	// function after a queueing passes the hand-over to the hang-up goroutine - also the exit on the close message
+	for n, site := range hupSites {
+		r.mustPass(fmt.Sprintf("C11.R1:queued-hangup-is-delivered#%d", n+1), "once a hang-up was queued (its descriptor is deregistered, so no further event will ever report it) every exit of the dispatch function hands the queue to the hang-up goroutine first: a batch that also carries the poller's close message must not drop the hang-ups collected before it", disp, site, []Start{After(site)},
+			func(i ssa.Instruction) bool { return isCall(i, onhups) }, nil, nil, "onhups() on every path from the queueing to a return")
 	}
 	var ioreads, iosends, readalls []ssa.Instruction
 	ioreads = findIns(disp, func(i ssa.Instruction) bool { return isCall(i, ioread) })
@@ -398,7 +406,7 @@ func c11(r *Run) {
 
 	// after a descriptor is detached (and its slot freed) no callback fires for it: slots are spliced back only after the batch (C10.R3)
 	if w.Cfg.Name == "linux" || w.Cfg.Name == "darwin" {
-		r.borrow([]string{"C10.R3:who-splices", "C10.R3:splice-after-dispatch", "C10.R3:splice-after-batch", "C10.R2:field-under-token"}, "C10.R", "C11.R2.", func() { c10(r) })
+		r.borrow([]string{"C10.R3:who-splices", "C10.R3:splice-after-dispatch", "C10.R3:splice-after-batch", "C10.R3:freeable-waits-before-reset", "C10.R2:field-under-token"}, "C10.R", "C11.R2.", func() { c10(r) })
 	}
 
 	// ---- R5 counts ----------------------------------------------------------------------------------
